@@ -5,10 +5,10 @@ the proofs that at depth >= max_depth (or with only_leaves) only leaf generators
 that the same-depth re-dispatch of gen_variable cannot loop through gen_variable again, that
 the candidate list is never empty, that every composite generator increments the depth, and
 that every run of the abstract recursion scheme built from these (gen_new's bottom cut at
-2 * max_depth included) has nesting <= 2 * max_depth + 1.
+2 * max_depth included) has nesting <= (A + 1) * (2 * max_depth + 1), A the deepest array nesting of a type (array expressions do not increment the depth).
 Ties: (a) the real get_generators is driven directly (a Generator whose gen_* methods return
 their own tag) against the model; (b) traces: generated programs must satisfy the proved
-nesting bound (composite nodes on a root-to-leaf path <= 2 * max_depth + 2 + array nesting),
+nesting bound (composite nodes on a root-to-leaf path <= (A + 1) * (2 * max_depth + 1) + 1, A = deepest array nesting of a type),
 and generation, type erasure, type overwriting and translation of every intermediate program
 must not raise (counted per stage).  Exception freedom of ~10 kLoC is NOT proved: part (b) is
 supporting exploration, labelled as such; termination of the same-depth loop holds with
@@ -425,7 +425,7 @@ def run(tier, seed, replay=None):
                     nprog += 1
                     n = ir2coq.Ser(langs[lang], p).prog()
                     cd = counted_depth(n)
-                    bound = 2 * md + 2 + array_nesting(n)
+                    bound = (array_nesting(n) + 1) * (2 * md + 1) + 1      # nesting_bounded with A = array nesting; + 1: the statement itself
                     worst[(lang, md)] = max(worst.get((lang, md), 0), cd)
                     if cd > bound:
                         bound_viol.append((lang, md, sd, cd, bound))
